@@ -95,6 +95,27 @@ def pattern_bytes(n, salt=0, start=0):
     return (base * reps)[off:off + n]
 
 
+class SizedBlob:
+    """A data-less object of a given size (real-scale planning cases: only
+    lengths and ranges matter)."""
+
+    def __init__(self, size):
+        self.size = size
+
+    def __len__(self):
+        return self.size
+
+    def __getitem__(self, sl):
+        a, b, _ = sl.indices(self.size)
+        return SizedBlob(max(0, b - a))
+
+    def __eq__(self, other):
+        return isinstance(other, SizedBlob) and other.size == self.size
+
+    def __hash__(self):
+        return hash(self.size)
+
+
 class Trace:
     def __init__(self, sched):
         self.sched = sched
@@ -703,6 +724,7 @@ class FakeClient:
                 return {}
             last = 0
             out = bytearray()
+            sized = 0
             for p in parts:
                 pn = p['PartNumber']
                 if pn <= last:
@@ -711,11 +733,15 @@ class FakeClient:
                 have = up.parts.get(pn)
                 if have is None or have['etag'] != p.get('ETag'):
                     raise FakeClientError(f'InvalidPart {pn}')
-                out += have['data']
+                if isinstance(have['data'], SizedBlob):
+                    sized += len(have['data'])
+                else:
+                    out += have['data']
             up.state = 'completed'
             up.completed += 1
             up.final_parts = [dict(p) for p in parts]
-            svc.objects[(up.bucket, up.key)] = bytes(out)
+            svc.objects[(up.bucket, up.key)] = (
+                SizedBlob(sized) if sized else bytes(out))
             return {'ETag': svc.new_etag('mpu')}
         return self._call('complete_multipart_upload', kw, effect)
 
